@@ -204,7 +204,7 @@ func (c *c08) genRandom(seed int64, base, n int) {
 		c.setSchema(s, drop)
 		for k := 0; k < 3; k++ {
 			m := randMsgPB(r, c.wide.rroot, 0, pbGenCfg{maxStr: 400})
-			doc := refMarshal(m)
+			doc := refMarshalAnyOrder(r, m)
 			pc := P2JCase{B: B(doc), I2S: r.Intn(2) == 0, Disallow: len(drop) > 0 && r.Intn(2) == 0}
 			c.out.Begin(base+i, P2JCase{Schema: &c.wide.schema, Drop: drop, B: pc.B, I2S: pc.I2S, Disallow: pc.Disallow})
 			c.run(pc)
